@@ -14,8 +14,54 @@ def entries(exclude_ack=True):
     return out
 
 
-def build(entry, ch, acc, max_faults=4, shapes=None, flavor='plain', avoid='~*:^', kinds=None, hostile_values=None, envelope=0.0, malformed=0.0, big=0.0, keep_empty_tail=0.0):
-    """-> (doc, [expectations]) or None"""
+def set_bounds(doc):
+    """[(index of ST, index of SE)] of the transaction sets of the document"""
+    out = []
+    a = None
+    for i, s_ in enumerate(doc.segs):
+        if s_.id == 'ST':
+            a = i
+        elif s_.id == 'SE' and a is not None:
+            out.append((a, i))
+            a = None
+    return out
+
+
+def clone_set(doc, k, base):
+    """insert a copy of the k-th set right after it (same group): sibling sets with identical structure"""
+    import copy
+    a, b = set_bounds(doc)[k]
+    off = max([inst for s_ in doc.segs for (_n, inst) in s_.chain] or [0]) + 1
+    new = []
+    for s_ in doc.segs[a:b + 1]:
+        c = docgen.GSeg(s_.node, copy.deepcopy(s_.vals), [(ln, inst + off if d >= 2 else inst) for d, (ln, inst) in enumerate(s_.chain)])
+        c.tags = set(s_.tags)
+        new.append(c)
+    doc.segs[b + 1:b + 1] = new
+    docgen.fixup(doc, base)
+
+
+def _inject_in(doc, ch, kinds, lo, hi, at=None, exclude=()):
+    """one catalogue fault whose location lies in segs[lo+1:hi] (or exactly at segment `at`) -> (doc, exp) or None"""
+    avail = []
+    for k in kinds:
+        if k in exclude:
+            continue
+        c = [x for x in faults.candidates(doc, k) if (x[0] == at if at is not None else lo < x[0] < hi)]
+        if c:
+            avail.append((k, c))
+    if not avail:
+        return None
+    kind, cands = avail[ch.integer(0, len(avail) - 1)]
+    return faults.inject(doc, kind, cands[ch.integer(0, len(cands) - 1)], ch.seed())
+
+
+def build(entry, ch, acc, max_faults=4, shapes=None, flavor='plain', avoid='~*:^', kinds=None, hostile_values=None, envelope=0.0, malformed=0.0, big=0.0, keep_empty_tail=0.0,
+          by_set=0.0, twin_sets=0.0):
+    """-> (doc, [expectations]) or None
+
+    by_set: probability that faults are placed by first drawing which sets are faulty (each with p=.5) and then one fault inside each;
+    twin_sets: probability that one set is cloned and the two copies get different faults at the same segment."""
     shape = ch.choice(shapes or [(1, 1, 1), (1, 1, 2), (1, 1, 3), (1, 2, 1), (1, 2, 2), (2, 1, 1), (2, 2, 1), (1, 3, 2)])
     kw = dict(p_seg=ch.choice([.2, .4, .7]), p_loop=ch.choice([.15, .3]), max_rep=2, shape=shape, max_segs=250)
     if big and ch.chance(big):
@@ -39,6 +85,68 @@ def build(entry, ch, acc, max_faults=4, shapes=None, flavor='plain', avoid='~*:^
     nf = ch.choice([0, 1, 1, 2, 3, max_faults])
     exps = []
     kinds = kinds or faults.KINDS
+    if twin_sets and ch.chance(twin_sets) and set_bounds(doc):
+        # sibling sets of identical structure with different defects at the same place
+        nf = 0
+        k = ch.integer(0, len(set_bounds(doc)) - 1)
+        clone_set(doc, k, ch.seed() % 10 ** 9)
+        (a1, b1), (a2, b2) = set_bounds(doc)[k], set_bounds(doc)[k + 1]
+        if b1 - a1 > 1:
+            r = ch.integer(1, b1 - a1 - 1)
+            plan = [kinds, kinds]                 # kinds allowed in the later / the earlier copy
+            if ch.chance(.6):
+                # prefer a place where one copy can get a segment-level and the other an element-level defect
+                sites = {}
+                for k_ in kinds:
+                    for x in faults.candidates(doc, k_):
+                        if a1 < x[0] < b1:
+                            sites.setdefault(x[0] - a1, set()).add(k_)
+                mixed = sorted(q for q, ks in sites.items() if ks & set(faults.SEGMENT_KINDS) and ks & set(faults.ELEMENT_KINDS))
+                if mixed:
+                    r = mixed[ch.integer(0, len(mixed) - 1)]
+                    sk = [k_ for k_ in kinds if k_ in faults.SEGMENT_KINDS and k_ in sites[r]]
+                    if 'unknown-segment' in sk and len(sk) > 1 and ch.chance(.7):
+                        sk.remove('unknown-segment')      # possible everywhere: it would crowd out the other kinds
+                    ek = [k_ for k_ in kinds if k_ in faults.ELEMENT_KINDS]
+                    plan = [ek, sk] if ch.chance(.6) else [sk, ek]
+            used = []
+            if plan[0] is not plan[1] and plan[1] and plan[1][0] in faults.SEGMENT_KINDS and ch.chance(.7):
+                # the earlier copy first; the later copy then gets its element-level defect at the set position at which the
+                # segment-level error of the earlier copy is reported (same segment id there when a segment was removed)
+                res = _inject_in(doc, ch, plan[1], a1, b1, at=a1 + r)
+                if res is not None:
+                    doc, exp = res
+                    exp['twin'] = True
+                    exps.append(exp)
+                    q = exp.get('seg_index', a1 + r) - a1
+                    a2, b2 = set_bounds(doc)[k + 1]
+                    res = _inject_in(doc, ch, plan[0], a2, b2, at=a2 + q) or _inject_in(doc, ch, plan[0], a2, b2, at=a2 + r)
+                    if res is not None:
+                        doc, exp = res
+                        exp['twin'] = True
+                        exps.append(exp)
+                plan = None
+            # the later set first: its indexes do not move when the earlier set changes length
+            for (a_, b_), ks in zip([(a2, b2), (a1, b1)], plan or []):
+                res = _inject_in(doc, ch, ks, a_, b_, at=a_ + r, exclude=used)
+                if res is not None:
+                    doc, exp = res
+                    exp['twin'] = True
+                    used.append(exp['kind'])
+                    exps.append(exp)
+    elif by_set and ch.chance(by_set) and len(set_bounds(doc)) > 1:
+        nf = 0
+        nsets = len(set_bounds(doc))
+        mask = [ch.chance(.5) for _ in range(nsets)]
+        for k in reversed(range(nsets)):
+            if not mask[k]:
+                continue
+            a_, b_ = set_bounds(doc)[k]
+            res = _inject_in(doc, ch, kinds, a_, b_)
+            if res is not None:
+                doc, exp = res
+                exp['by_set'] = True
+                exps.append(exp)
     for j in range(nf):
         avail = [(k, faults.candidates(doc, k)) for k in kinds]
         avail = [(k, c) for k, c in avail if c]
@@ -77,7 +185,7 @@ def build(entry, ch, acc, max_faults=4, shapes=None, flavor='plain', avoid='~*:^
 
 
 ENVELOPE_FAULTS = ['se-count', 'se-id', 'ge-count', 'ge-id', 'iea-count', 'iea-id', 'gs-date', 'gs-time', 'st-dup', 'gs-dup', 'gs-code',
-                   'se-count-alpha', 'st-id-long', 'se-count', 'st-dup', 'st-many-codes', 'drop-trailer', 'st-dup-far', 'gs-dup-far']
+                   'se-count-alpha', 'st-id-long', 'se-count', 'st-dup', 'st-many-codes', 'st-many-codes', 'st-many-codes', 'drop-trailer', 'st-dup-far', 'gs-dup-far']
 
 
 def envelope_fault(doc, ch):
@@ -108,10 +216,14 @@ def _envelope_fault(doc, ch):
         for a_, b_ in zip(c, c[1:]):
             if 'GS' not in [x.id for x in doc.segs[a_:b_]]:
                 doc.segs[b_].vals[1] = list(doc.segs[a_].vals[1])
-                for x in doc.segs[b_:]:
+                for k_, x in enumerate(doc.segs[b_:]):
                     if x.id == 'SE':
                         x.vals[0] = ['X1']
                         x.vals[1] = [doc.segs[a_].vals[1][0] + '999999X']
+                        if k_ > 1 and ch.chance(.6):
+                            # ... and an error inside the same set (surplus elements on one of its body segments)
+                            body = doc.segs[b_ + 1 + ch.integer(0, k_ - 2)]
+                            body.vals = list(body.vals) + [['X']] * 30
                         break
                 return kind
         return None
@@ -193,4 +305,5 @@ def meta_of(doc, exps):
     return {'file': doc.entry['file'], 'icvn': doc.icvn, 'vriic': doc.entry['vriic'], 'fic': doc.entry['fic'],
             'faults': [e['kind'] for e in exps], 'nsets': sum(1 for s in doc.segs if s.id == 'ST'),
             'ngroups': sum(1 for s in doc.segs if s.id == 'GS'), 'nisa': sum(1 for s in doc.segs if s.id == 'ISA'),
-            'body': len(body), 'hostile': any(e.get('hostile') for e in exps)}
+            'body': len(body), 'hostile': any(e.get('hostile') for e in exps),
+            'placement': 'twin-sets' if any(e.get('twin') for e in exps) else 'by-set' if any(e.get('by_set') for e in exps) else 'free'}
